@@ -1537,7 +1537,14 @@ macro_rules! public_decode_function{
                     // Wasn't read from `src`!, leave out_read to 0
                 }
                 DecoderResult::OutputFull => {
-                    panic!("Output buffer must have been too small.");
+                    if first_byte != 0xBBu8 {
+                        panic!("Output buffer must have been too small.");
+                    }
+                    // The pending second byte of a non-BOM is retried when
+                    // the with-replacement methods call again with what
+                    // remains of the caller's buffer after U+FFFD, which
+                    // can be shorter than the minimum. Keep it pending.
+                    self.life_cycle = DecoderLifeCycle::ConvertingWithPendingBB;
                 }
             }
             return (first_result, out_read, first_written);
